@@ -280,7 +280,7 @@ func structFieldsOf(fi *FuncInfo) []string {
 }
 
 func checkC09(c *Check) {
-	c.Explanation = "Must-define / no-stale-read dataflow over every generated TL1 and TL2 reader and Reset of struct-like types: on every path to a success return every field of the receiver (incl. hidden TL2 mask bytes and union index) has been assigned, reset, or handed to a sibling reader/Reset; conditions never read a receiver field before this call defined it (capacity and nil tests excepted); builtin vector/dictionary readers re-slice, reallocate or clear the destination before filling it; decoded temporaries stored into collections are fresh per iteration. For unions only the index and the active variant are required; for Maybe the payload is required only when present."
+	c.Explanation = "Must-define / no-stale-read dataflow over every generated TL1 and TL2 reader and Reset of struct-like types: on every path to a success return every field of the receiver (incl. hidden TL2 mask bytes and union index) has been assigned, reset, or handed to a sibling reader/Reset; conditions never read a receiver field before this call defined it (capacity and nil tests excepted); builtin vector/dictionary readers re-slice, reallocate or clear the destination before filling it; decoded temporaries stored into collections are fresh per iteration. For unions only the index and the active variant are required; for Maybe the payload is required only when present, and the TL2 payload read under its block bit has an else branch resetting Value (a present Maybe with a default payload is written without it)."
 	c.NotCovered = "JSON readers (their omitted-field resets are decided in C06); equality of error values on failing inputs; fixed-size array remainders"
 	c.Trusted = []string{"go/types", "summary: a sibling reader/Reset defines its whole operand (inductive over the same rule)"}
 	withCorpora(c, true, func(g *genCtx) {
@@ -321,6 +321,17 @@ func checkC09(c *Check) {
 					}
 					sort.Strings(f.problems)
 					c.Ob("must-define/"+role, name, len(f.problems) == 0, posStr(g.co.Fset, fi.Decl.Pos()), fmt.Sprintf("%d fields; %s", len(req), strings.Join(uniq(f.problems), " | ")))
+					// A present Maybe whose payload is omitted on the wire (it equals the default) must still define Value:
+					// the payload read under a block bit has an else branch that resets item.Value (seed C09-4).
+					if isMaybe && role == "InternalReadTL2" {
+						for _, n := range ir.Body {
+							in, ok := n.(*IfN)
+							if !ok || in.Cond.Kind != "bit" || !strings.Contains(in.Cond.String(), ":block,") || !strings.Contains(blockText(in.Then), "item.Value") {
+								continue
+							}
+							c.Ob("maybe-reader/omitted-payload-resets-value", name, len(in.Else) > 0 && strings.Contains(blockText(in.Else), "item.Value"), posStr(g.co.Fset, in.Pos), "the payload read under "+in.Cond.String()+" has an else branch that gives item.Value its empty value (a present Maybe with a default payload is written without it)")
+						}
+					}
 				}
 				if role != "Reset" {
 					g.freshTemporaries(c, "fresh-temporaries", name+"."+role, fi)
@@ -469,6 +480,7 @@ func checkC09(c *Check) {
 		}
 	})
 	c.Floor("json-reader/absent-field-reset-on-every-path", 300)
+	c.Floor("maybe-reader/omitted-payload-resets-value", 50)
 	c.Floor("must-define/ReadTL1", 200)
 	c.Floor("must-define/InternalReadTL2", 150)
 	c.Floor("must-define/Reset", 200)
